@@ -443,6 +443,77 @@ def run(ctx, prj: Project):
     rule_R3(ctx, prj)
     rule_R4(ctx, prj)
     rule_R5(ctx, prj)
+    rule_R6_composition(ctx, prj)
+
+
+def rule_R6_composition(ctx, prj: Project, depth2_full=True):
+    """thorough: compose the extracted apply() fragments (no black boxes) for every pattern tree of a bounded
+    family and compare the composed automaton's language with the regular expression's"""
+    from ..patterns import Composer, pat_to_regex
+    ctx.rule("R6", "composition: for every pattern tree over {a, b} up to nesting depth 2 (all operators at all positions) and "
+                   "all unary operators applied to those (depth 3), the automaton obtained by composing the repo's own "
+                   "Operator.apply fragments exactly as expression_to_nfa does denotes the tree's regular language "
+                   "(DFA equivalence with the reference construction)", floor=500)
+    A = Pat("atom", pred=Pred("Identity", ("a",)))
+    B = Pat("atom", pred=Pred("Identity", ("b",)))
+    lvl0 = [A, B]
+
+    def grow(xs, pool):
+        out = []
+        for x in xs:
+            for op in ("opt", "star", "plus"):
+                out.append(Pat(op, [x]))
+        for x in xs:
+            for y in pool:
+                out.append(Pat("seq", [x, y]) if x.op != "seq" and y.op != "seq" else None)
+                out.append(Pat("union", [x, y]))
+        return [o for o in out if o is not None]
+    lvl1 = grow(lvl0, lvl0)
+    lvl2 = grow(lvl1, lvl0 + lvl1) + [Pat("seq", [x, y]) for x in lvl0 for y in lvl1 if y.op != "seq"] + [Pat("union", [x, y]) for x in lvl0 for y in lvl1]
+    lvl3 = [Pat(op, [x]) for x in lvl2 for op in ("opt", "star", "plus")]
+    comp = Composer(prj)
+    labels = {"a", "b"}
+    n = bad = 0
+    first = None
+    for p in lvl0 + lvl1 + lvl2 + lvl3:
+        n += 1
+        ctx.obligations += 1
+        got = comp.dfa(p, labels)
+        want = regex_dfa(pat_to_regex(p), labels)
+        w = dfa_difference(got, want, labels)
+        if w is None:
+            ctx.discharged += 1
+        else:
+            bad += 1
+            if first is None:
+                first = (p, w, (tuple(w) in _accepted_words(want)))
+    ctx.extra["composition_trees"] = n
+    if bad:
+        p, w, in_lang = first
+        ctx.viol("R6", "composition/" + repr(p)[:80], "codelimit/common/gsm/operator",
+                 f"{bad} of {n} composed patterns denote a wrong language; smallest: {p!r} {'rejects' if in_lang else 'accepts'} the word "
+                 f"[{' '.join(w) or 'ε'}] although it is {'in' if in_lang else 'not in'} the pattern's language")
+    else:
+        for i in range(n):
+            pass
+        ctx.instances["R6"].extend(dict(site="codelimit/common/gsm/operator", what=f"tree #{i}", verdict="ok") for i in range(n))
+        ctx.lines.append(f"OK rule=R6 site=codelimit/common/gsm/operator construct=composition trees={n} all equivalent")
+
+
+def _accepted_words(dfa, maxlen=6):
+    start, trans, accs = dfa
+    out = set()
+    todo = [(start, ())]
+    while todo:
+        st, w = todo.pop()
+        if st in accs:
+            out.add(w)
+        if len(w) >= maxlen:
+            continue
+        for (s, l), t in trans.items():
+            if s == st:
+                todo.append((t, w + (l,)))
+    return out
 
 
 def run_thorough(ctx, prj: Project):
